@@ -65,6 +65,12 @@ func runC07(p *an.Prog, r *an.Run, tier string) {
 		r.Check(len(sb) == 0, "fail-clean", "payment:shared-digits", token.NoPos, "the payment service never mutates a balance it was handed in place", "%s", strings.Join(sb, "; "))
 	}
 	checkDepositCache(p, r)
+	// the amount paid and the balance left reach the settlement (the contract binding, the handler) in their own
+	// positions: no argument carries the name of another same-typed parameter of the callee
+	if sw, nCalls := swappedNamedArgs(p, func(fn *ssa.Function) bool { return true }); true {
+		r.Floor("named-arg-calls", nCalls, 100)
+		r.Check(len(sw) == 0, "arg-positions", "repo", token.NoPos, "no argument is named like a different same-typed parameter of its callee", "%s", strings.Join(sw, "; "))
+	}
 	checkBigIntOwnership(p, r)
 	checkKeyOperandTypes(p, r)
 	// the functions bound to the Settle field must report a failed payout
